@@ -360,9 +360,6 @@ for h in ("font2_w_array_ascending", "font2_w_array_descending"):
     ob(h, ["C19"], "font2.rs", tier="infeasible", unwind=8, cuts=X1_FONT, stubs=[FMT_STUB, RS_STUB], timeout=1500, mem_gb=16,
        functions=["font::Font::widths", "font::Widths::set", "font::Widths::_set", "font::Widths::get"],
        bound="/W [2 [a b] 6 7 c] (%s order) with symbolic widths and /DW, every code 0..=10" % h[14:])
-for h in ("dict_lzwparams_roundtrip", "dict_lzwparams_read_defaults"):
-    ob(h, ["X91"], "dict.rs", unwind=8, cuts=X1_ALL, stubs=[FMT_STUB, RS_STUB], timeout=1500, mem_gb=20, functions=[], bound="probe")
-ob("dict_insert_get", ["X92"], "dict.rs", unwind=6, cuts=X1_ALL, stubs=[FMT_STUB, RS_STUB], timeout=900, mem_gb=16, functions=[], bound="probe")
 for h in ("parser2_int_then_sep", "parser2_int_at_end"):
     ob(h, ["C03", "C11"], "parser2.rs", tier="infeasible", unwind=6, unwindset=[(r"^core::slice::memchr::memchr_naive$", 0, 11)], unwindset_optional=True, cuts=X1_ALL,
        guards=[r"^parser::parse_with_lexer_ctx::<", r"^parser::parse_dictionary_object::<"], stubs=[FMT_STUB, UTF8_STUB], timeout=1500, mem_gb=16,
@@ -395,6 +392,34 @@ for w_ in ("colors", "bits", "columns"):
        functions=FLFN, bound="predictor 12, EVERY i32 value of %s with the other two parameters at extreme values, 2 inflated bytes: "
        "no panic" % w_)
 
+
+
+# ---------------------------------------------------------------------------------------------------------------------
+# numeric conversions of Primitive (C14), and the experiments of the last build hours (all tier "infeasible": documented
+# attempts, never selected by a registered check)
+# ---------------------------------------------------------------------------------------------------------------------
+ob("prim2_numeric_conversions", ["C14", "C01"], "primitive2.rs", unwind=4, cuts=X1_ALL, stubs=[FMT_STUB], timeout=900, mem_gb=12,
+   functions=["primitive::Primitive::as_integer", "primitive::Primitive::as_u32", "primitive::Primitive::as_usize",
+              "primitive::Primitive::as_u8", "primitive::Primitive::as_number"],
+   bound="every i32: negative values are errors for the unsigned conversions (never wrapped), in-range values unchanged; every non-NaN f32")
+ob("stream2_chain_hex_then_runlength", ["C05"], "stream2.rs", tier="infeasible", unwind=10, cuts=X1_ALL, stubs=[FMT_STUB], timeout=1500, mem_gb=16,
+   functions=["object::stream::Stream::data"], bound="filter chain [ASCIIHex, RunLength] on a symbolic payload byte: timeout 25 min "
+   "(dct/fax/lzw/flate decoders must be stubbed or the Kani compiler panics)")
+ob("xref2_write_then_read", ["C02"], "xref2.rs", tier="infeasible", unwind=10, cuts=X1_ALL, stubs=[FMT_STUB], timeout=1500, mem_gb=16,
+   functions=["xref::XRefTable::write_stream"], bound="xref-stream writer inverted by the row reader, 2 symbolic entries: solver out of memory "
+   "(symbolic field widths make the slices symbolic-sized)")
+ob("content_ser2_move_curve", ["C08"], "content_ser2.rs", tier="infeasible", unwind=16, cuts=X1_ALL, stubs=[FMT_STUB], timeout=1500, mem_gb=20,
+   functions=["content::serialize_ops"], bound="serializer with a silent recording stub for number formatting: timeout 25 min")
+for l_ in (2, 3, 4):
+    ob("font3_utf16_l%d" % l_, ["C01"], "font3.rs", tier="infeasible", unwind=8, cuts=X1_ALL, stubs=[FMT_STUB], timeout=900, mem_gb=12,
+       functions=["font::utf16be_to_string"], bound="UTF-16BE decoding of %d arbitrary bytes: timeout 15 min" % l_)
+ob("backend2_locate_xref_offset", ["C02"], "backend2.rs", tier="infeasible", unwind=34, cuts=X1_ALL, stubs=[FMT_STUB], timeout=1200, mem_gb=16,
+   functions=["backend::Backend::locate_xref_offset"], bound="startxref offset on a concrete skeleton with 2 symbolic digits: timeout 20 min")
+for h_ in ("dict_lzwparams_roundtrip", "dict_lzwparams_read_defaults"):
+    ob(h_, ["C15"], "dict.rs", tier="infeasible", unwind=8, cuts=X1_ALL, stubs=[FMT_STUB, RS_STUB], timeout=1500, mem_gb=20, functions=[],
+       bound="derived reader/writer of the smallest model (LZWFlateParams): timeout 25 min")
+ob("dict_insert_get", ["C15"], "dict.rs", tier="infeasible", unwind=6, cuts=X1_ALL, stubs=[FMT_STUB, RS_STUB], timeout=900, mem_gb=16, functions=[],
+   bound="Dictionary insert/get with a concrete key: feasible (71 s) -- kept as a calibration point only")
 
 # development-only obligations (experiments under X-properties) live in an optional side file so that editing them cannot
 # disturb a registered check that is running
